@@ -26,7 +26,7 @@ def main():
         if p["id"] not in P.PROPS or P.PROPS[p["id"]].get("unclaimed"):
             na.append(dict(property_id=p["id"], reason=P.NOT_APPLICABLE.get(p["id"], "check not built yet (see DESIGN.md section 6)")))
     m = dict(version=1,
-             setup_cmd="true",
+             setup_cmd="tools/setup.sh",
              hooks=dict(guard="decaf377_verif", enable='RUSTFLAGS="--cfg decaf377_verif" (hint-override hook in FqVarExtension::isqrt; used only by the replay runner built with features r1cs; the Verus units always see the guard-off text)',
                         baseline_off_cmd="cd /repo && cargo test --workspace --no-fail-fast --offline", source_commits=['1217a89'], add_only=True),
              engines=[dict(name="vx", path="/verif/vx", serves_properties=[c["property_id"] for c in checks],
